@@ -15,7 +15,8 @@ class C13(scen.PairProp):
                 "Wheatley.C13.blunder_harmless",
                 "Wheatley.C13.threshold_value",
                 "Wheatley.C13.unexpected_stroke_ignored",
-                "Wheatley.C13.inertia_setting_applies"]
+                "Wheatley.C13.inertia_setting_applies",
+                "Wheatley.C13.expectation_used_once"]
     level_text = ("theorems: with inertia 1 a data point never changes start or interval (the early return), so the "
                   "line after row 0 is independent of every later strike; exp(-9) < 1/1000 (proved for the real "
                   "exponential), hence a strike 3 or more places from its slot gets a weight below the rejection "
